@@ -256,7 +256,7 @@ theorem parseStatements_ok (fuel : Nat) (ss : List Statement)
   induction ss generalizing n st with
   | nil =>
     obtain ⟨n, rfl⟩ : ∃ m, n = m + 1 := ⟨n - 1, by simp at hn; omega⟩
-    have : st.toks = [] := by simpa [E] using hE
+    have : st.toks = [] := E_nil (by simpa using hE)
     exact ⟨[], st, by simp [parseStatements, PState.peek, this], rfl⟩
   | cons s ss ih =>
     obtain ⟨n, rfl⟩ : ∃ m, n = m + 1 := ⟨n - 1, by simp at hn; omega⟩
@@ -270,7 +270,7 @@ theorem parseStatements_ok (fuel : Nat) (ss : List Statement)
       | nil => rw [hst] at this; simp at this
       | cons t tl =>
         rw [hst] at hE
-        obtain ⟨lt, hp, -⟩ := peek_of_E hE
+        obtain ⟨lt, hp, -, -, -⟩ := peek_of_E hE
         exact ⟨lt, hp⟩
     obtain ⟨lt, hp⟩ := hpk
     refine ⟨s' :: ss', st2, ?_, by simp [hs, hss]⟩
